@@ -622,7 +622,11 @@ impl<R: BufRead> Read for Dearmor<R> {
                     let last_read = self.read_body(&mut into[read..], &mut b)?;
                     if last_read == 0 && read < into.len() {
                         // we are done with the body
-                        let (b, buf) = b.into_inner_with_buffer();
+                        let (mut b, buf) = b.into_inner_with_buffer();
+                        // an error of the source that the base64 layer has not reported yet
+                        if let Some(err) = b.take_deferred_err() {
+                            return Err(err);
+                        }
                         let b = BufReader::with_buffer(buf, b.into_inner());
                         self.current_part = Part::Footer(b);
                     } else {
